@@ -142,6 +142,8 @@ def savetoCell (r : Cells) : Option Str := lookup (S "bind::entities:saveto") r
 
 inductive RowKind where
   | end_ | beginGroup | beginRepeat | question
+  /-- an `audit` row: it configures the meta block, it is not a question -/
+  | meta_
 deriving Repr, DecidableEq
 
 /-- by the *parsed* control type of the row (`RE_END_CONTROL` / `RE_BEGIN_CONTROL`) -/
@@ -149,6 +151,7 @@ def rowKind (t : Str) : RowKind :=
   match Rows.matchControl "end" false t with
   | some _ => .end_
   | none =>
+    if t = S "audit" then .meta_ else
     match Rows.matchControl "begin" true t with
     | some c => if c = S "repeat" then .beginRepeat else .beginGroup
     | none => .question
@@ -167,6 +170,7 @@ def saveto (decl : Bool) (root : Str) : List (Str × Bool) → List Cells → Op
     let name := (Rows.get r "name").getD []
     match rowKind t with
     | .end_ => saveto decl root (st.drop 1) rs
+    | .meta_ => saveto decl root st rs
     | .beginGroup => if truthy (savetoCell r) then none else saveto decl root ((name, false) :: st) rs
     | .beginRepeat => if truthy (savetoCell r) then none else saveto decl root ((name, true) :: st) rs
     | .question =>
@@ -183,22 +187,37 @@ def saveto (decl : Bool) (root : Str) : List (Str × Bool) → List Cells → Op
 def entitiesNs : Str × Str := (S "entities", S "http://www.opendatakit.org/xforms/entities")
 def versionAttr : String := "entities:entities-version"
 
+/-- the generated `meta` group: `audit` (if the sheet has an audit row), `instanceID` (unless omitted by the
+    setting), `instanceName` (if the setting is given), and the entity declaration as the last child -/
+def metaKids (audit omitInstanceID instanceName entity : Bool) : List Str :=
+  (if audit then [S "audit"] else []) ++ (if omitInstanceID then [] else [S "instanceID"]) ++
+  (if instanceName then [S "instanceName"] else []) ++ (if entity then [S "entity"] else [])
+
+/-- the three facts about sheet and settings that shape the meta block -/
+structure MetaCfg where
+  audit : Bool
+  omitInstanceID : Bool
+  instanceName : Bool
+deriving Repr, DecidableEq
+
 /-- what the XForm must contain (`some`) or that the form must be rejected (`none`).
     `userNs`: what the settings `namespaces` cell itself declares for the prefix `entities` (settings are
     C11's; normally nothing).  With an entity the entities namespace is declared whatever the user wrote;
     without one only the user's own declaration, if any, is there. -/
-def form (root : Str) (sub : Str → Str) (version : String) (userNs : Option (Str × Str))
+def form (root : Str) (sub : Str → Str) (version : String) (userNs : Option (Str × Str)) (m : MetaCfg)
     (entities : List Cells) (survey : List Cells) : Option Out :=
   match entities with
   | [] =>
     (saveto false root [] survey).map fun sv =>
-      { entity := none, nodes := [], saveto := sv, version := none, xmlns := userNs }
+      { entity := none, nodes := [], saveto := sv, version := none, xmlns := userNs,
+        metaKids := metaKids m.audit m.omitInstanceID m.instanceName false }
   | [row] =>
     match entityRow (Form.xpathStr [root, S "meta", S "entity"]) sub row with
     | none => none
     | some (en, ns) =>
       (saveto true root [] survey).map fun sv =>
-        { entity := some en, nodes := ns, saveto := sv, version := some (versionAttr, version), xmlns := some entitiesNs }
+        { entity := some en, nodes := ns, saveto := sv, version := some (versionAttr, version), xmlns := some entitiesNs,
+          metaKids := metaKids m.audit m.omitInstanceID m.instanceName true }
   | _ :: _ :: _ => none
 
 end Pyxv.Entities.Spec
